@@ -41,6 +41,21 @@ Theorem C03_paint_is_reference_inside_box : forall bb k c m q,
   paint bb k c m q = if contains bb q then free_paint bb idc c m q else m q.
 Proof. exact paint_root. Qed.
 
+(* ContiguousIteratorExt::into_pixels (IntoPixels): the same pairing - the colour paired with point p is the one at its
+   row-major index; it IS the iterator the default fill_contiguous hands to draw_iter; positions = a prefix of points() *)
+Theorem C03_into_pixels_spec : forall area cs p,
+  rect_fits area ->
+  last_write p (into_pixels area cs) = if contains area p then sget cs (idx_in area p) else None.
+Proof. exact into_pixels_spec. Qed.
+
+Theorem C03_into_pixels_is_default_fill : forall bb area cs m,
+  draw_iter bb (into_pixels area cs) m = default_fill_contiguous bb area cs m.
+Proof. exact into_pixels_default_fill. Qed.
+
+Theorem C03_into_pixels_positions : forall area (l : list color),
+  map fst (into_pixels area (Fin l)) = firstn (length l) (points area).
+Proof. exact into_pixels_positions. Qed.
+
 (* ---- the Cropped colour iterator (initial skip, per-row skip, nth) ----------------------------------- *)
 (* what a `for` loop sees = the colours at the row-major indices (in the size.width-wide area) of the points
    of crop /\ (0,0,size), up to the first exhausted position; zero-sized and disjoint crops give [] *)
